@@ -480,3 +480,51 @@ Proof.
     apply andb_true_iff in X. destruct X as [X1 X2]. apply N.eqb_eq in X1. subst. f_equal. auto. }
   repeat (apply orb_true_iff in H; destruct H as [H | H]); try discriminate; apply E in H; auto.
 Qed.
+
+(* ------------------------------------------------------------------------------------------------ *)
+(* sequences of dials of one Client *)
+
+(* T1 (the locks engine's inventory of every assignment to a Client field by any method, Gen.client_all_writes): the
+   functions of the dial path assign no field of the Client -- in particular authTypeAutoDiscover is a pure function
+   of (advertised list, isEnc) *)
+Definition dial_path_fn (f : bytes) : bool :=
+  existsb (bytes_eqb f)
+    [bs "Client.DialToSMTPClientWithContext"; bs "Client.tls"; bs "Client.auth"; bs "Client.authTypeAutoDiscover";
+     bs "Client.checkConn"; bs "Client.serverFallbackAddr"; bs "Client.ServerAddr"].
+
+Definition dial_path_writes_nothing : bool :=
+  forallb (fun e => negb (dial_path_fn (fst (fst (fst e))))) Gen.client_all_writes.
+
+(* memoryless: the k-th outcome of a sequence is a function of the k-th configuration and the k-th server only *)
+Lemma dial_sequence_nth_l : forall fuel l k cfg s,
+  nth_error l k = Some (cfg, s) ->
+  nth_error (dial_sequence fuel l) k = Some (run (dial fuel cfg) (world0 s)).
+Proof.
+  intros fuel l k cfg s H. unfold dial_sequence. rewrite nth_error_map. rewrite H. reflexivity.
+Qed.
+
+Lemma dial_sequence_in : forall fuel l x, In x (dial_sequence fuel l) ->
+  exists cfg s, In (cfg, s) l /\ x = run (dial fuel cfg) (world0 s).
+Proof.
+  intros fuel l x H. unfold dial_sequence in H. apply in_map_iff in H. destruct H as [[cfg s] [E Hin]].
+  exists cfg, s. split; [exact Hin | symmetry; exact E].
+Qed.
+
+(* ... so every property of a single dial holds for every dial of every sequence *)
+Lemma C07_sequence_password_confined_l : forall fuel l x v,
+  In x (dial_sequence fuel l) ->
+  In v (clear_cmds (w_trace (snd x))) -> reveals_password v = true ->
+  exists cfg s, In (cfg, s) l /\
+    (c_custom cfg = None -> noenc_type (c_auth cfg) = true \/ Dial.is_localhost (c_host cfg) = true).
+Proof.
+  intros fuel l x v Hx Hin Hr. destruct (dial_sequence_in _ _ _ Hx) as (cfg & s & Hl & E). subst x.
+  exists cfg, s. split; [exact Hl | intros Hc; eapply C07_password_confined_l; eauto].
+Qed.
+
+Lemma C07_sequence_mandatory_l : forall fuel l x v,
+  In x (dial_sequence fuel l) -> In v (clear_cmds (w_trace (snd x))) ->
+  exists cfg s, In (cfg, s) l /\ (c_policy cfg = Mandatory -> c_ssl cfg = false -> handshake_free_verb v = true).
+Proof.
+  intros fuel l x v Hx Hin. destruct (dial_sequence_in _ _ _ Hx) as (cfg & s & Hl & E). subst x.
+  exists cfg, s. split; [exact Hl | intros Hp Hs; eapply C07_mandatory_l; eauto].
+Qed.
